@@ -10,7 +10,13 @@ Enumerated space
                 garbage over the token alphabet, bracket mutations of well-formed queries.
 
 Oracles come from the property text: the term oracles are computed from the generated tree (never from the parsed
-HedString) and a hand-written table of schema paths; the algebraic laws are relations between real results.
+HedString) and a hand-written table of schema paths; the algebraic laws are relations between real results; the
+three group forms [A && B], {A && B}, {A && B:} (term-level A, B) use the wording of the QueryHandler docstring.
+
+Known defects on the unchanged tree (own narrow labels, everything next to them is checked by passing clauses):
+  C15.parse.unbalanced_rejected.closer_as_operand        ')'   compiles (closing symbol consumed as a search term)
+  C15.parse.unbalanced_rejected.double_square_as_term    '[['  compiles (legacy token lexed as a term)
+  C15.parse.wellformed_compiles.double_square_token      '[[Red]]' is rejected although '[ [Red] ]' compiles
 """
 import itertools
 import multiprocessing
@@ -153,10 +159,6 @@ def shuffle_tree(tree, rng):
     cs = [c if isinstance(c, str) else shuffle_tree(c, rng) for c in tree]
     rng.shuffle(cs)
     return tuple(cs)
-
-
-def canon_tree(tree):
-    return tuple(sorted((c if isinstance(c, str) else canon_tree(c) for c in tree), key=repr))
 
 
 def gen_annotations(rng, quick):
@@ -656,13 +658,9 @@ def _find_culprit(atext, texts):
         except BaseException:  # noqa
             pass
         s1 = snapshot(hs)
-        if _strip(s0) != _strip(s1) or ids0 != [x[0] for x in s1[1:]]:
+        if s0 != s1 or ids0 != [x[0] for x in s1[1:]]:
             return t
     return None
-
-
-def _strip(s):
-    return s
 
 
 def _snap_diff(s0, s1):
@@ -877,6 +875,9 @@ def run(w: Workload):
 
     _batch_part(w, plan, trees)
 
+    w.assumptions.append("oracle of the clauses C15.group.* = the QueryHandler docstring ('[..] a group that contains both at any "
+                         "level', '{..} at the same level', '{..:} and nothing else'), '&&' via distinct tags; the top-level "
+                         "string is not a group")
     w.assumptions.append("hand-written schema paths of the 8 tags used (checked against schema 8.3.0 entries at start)")
     w.assumptions.append("HedString parsing of the generated text yields the generated tree (leaf order checked)")
     w.not_covered.append("annotations with more than 5 nodes or nesting deeper than 4; tags outside the 10 spellings used")
